@@ -3,6 +3,7 @@ use super::structs::*;
 use crate::gen_types::*;
 use crate::report::{Report, RunCfg};
 use crate::util::*;
+use serde_json::json;
 
 fn comp(name: &str, k: usize) -> Comp {
     let tys = [Ty::Prim("BOOLEAN"), Ty::Prim("INTEGER"), Ty::Ref("Ref-Seq".into()), Ty::Prim("OCTET STRING")];
@@ -171,5 +172,48 @@ pub fn run(cfg: &RunCfg) -> Report {
         rep.exhaustive = true;
     }
     judge("c05", &cases, &mut rep, &describe);
+    if cfg.replay.is_none() {
+        components_of_extensible(&mut rep);
+    }
     rep
+}
+
+/// COMPONENTS OF an extensible type copies its root components only and brings no marker along: an including
+/// type without a marker of its own stays non-extensible and none of its components is an addition.
+fn components_of_extensible(rep: &mut Report) {
+    for (incl, base) in [("Aincl", "Zbase"), ("Zincl", "Abase")] {
+        for kw in ["SEQUENCE", "SET"] {
+            for hdr in ["AUTOMATIC TAGS", "EXPLICIT TAGS", "IMPLICIT TAGS"] {
+                let (t1, t2, t3) = if hdr == "AUTOMATIC TAGS" { ("", "", "") } else { ("[0] ", "[1] ", "[2] ") };
+                let text = format!(
+                    "Cof-Mod DEFINITIONS {hdr} ::= BEGIN\n{base} ::= {kw} {{ t1 {t1}INTEGER, ..., t2 {t2}NULL }}\n{incl} ::= {kw} {{ y {t3}BOOLEAN, COMPONENTS OF {base} }}\nEND\n"
+                );
+                rep.evaluations += 1;
+                rep.count("components-of-extensible-type");
+                let case = json!({"asn1": text, "env": "automatic", "implied": false, "components_of_extensible": true});
+                match compile_rasn(&[text.clone()]) {
+                    Outcome::Ok { generated, .. } => match crate::proj::project(&generated) {
+                        Ok(ms) => {
+                            let Some(it) = ms.first().and_then(|m| m.item(incl)) else {
+                                rep.unsat("", false, json!({"why": format!("{incl} is missing"), "case": case}));
+                                continue;
+                            };
+                            let crate::proj::ItemKind::Struct { fields, .. } = &it.kind else { continue };
+                            let names: Vec<&str> = fields.iter().map(|f| f.name.as_str()).collect();
+                            let marked: Vec<&str> = fields.iter().filter(|f| f.attrs.has("extension_addition") || f.attrs.has("extension_addition_group")).map(|f| f.name.as_str()).collect();
+                            let non_exhaustive = it.attrs.non_exhaustive;
+                            let mut sorted = names.clone();
+                            sorted.sort();
+                            if sorted != vec!["t1", "y"] || !marked.is_empty() || non_exhaustive {
+                                rep.unsat("", false, json!({"why": format!("{incl} (no marker of its own, COMPONENTS OF the extensible {base}): fields {:?}, marked as additions {:?}, non_exhaustive {non_exhaustive}; expected the root components y and t1, nothing marked, not extensible", names, marked), "case": case}));
+                            }
+                        }
+                        Err(e) => rep.harness_errors.push(format!("projection failed: {e}")),
+                    },
+                    Outcome::Err(e) => rep.sample(json!({"compile_err": e, "module": text})),
+                    Outcome::Panic(p) => rep.unsat("", false, json!({"why": format!("panic: {p}"), "case": case})),
+                }
+            }
+        }
+    }
 }
